@@ -62,9 +62,25 @@ def bdry_class(dbdry, rbdry):
     return 'both' if dflag and rflag else ('domain' if dflag else ('range' if rflag else 'none'))
 
 
-def signature(api, variant, mode, direction, shin, shout, dtype, offset, clause, bdry='none'):
-    return {'api': api, 'variant': variant, 'mode': mode, 'dir': direction, 'change': change_class(shin, shout),
-            'ndim': '%dd' % len(shin), 'dtype': dkind(dtype), 'offset': offset, 'nodes_on_bdry': bdry, 'clause': clause}
+def dtypes_class(dtype, rdtype):
+    if not rdtype or np.dtype(rdtype) == np.dtype(dtype):
+        return 'same'
+    return 'wider' if np.promote_types(dtype, rdtype) == np.dtype(rdtype) else 'narrower'
+
+
+def extra_of(cd):
+    """family-level description of the input kind / data type relation of a call descriptor"""
+    if cd.get('api') == 'resize_array':
+        return {'arraylike': cd.get('kind', 'ndarray'), 'dtypes': 'same'}
+    return {'arraylike': 'element', 'dtypes': dtypes_class(cd['dtype'], cd.get('rdtype'))}
+
+
+def signature(api, variant, mode, direction, shin, shout, dtype, offset, clause, bdry='none', extra=None):
+    sig = {'api': api, 'variant': variant, 'mode': mode, 'dir': direction, 'change': change_class(shin, shout),
+           'ndim': '%dd' % len(shin), 'dtype': dkind(dtype), 'offset': offset, 'nodes_on_bdry': bdry,
+           'arraylike': 'ndarray' if api == 'resize_array' else 'element', 'dtypes': 'same', 'clause': clause}
+    sig.update(extra or {})
+    return sig
 
 
 def range_event(cd, g, given):
@@ -289,10 +305,14 @@ def replay_case(case, k, log, thorough=False):
         for dtype, out, order in picks:
             w = 'i' if dtype.startswith('complex') else 1
             style = ['plain', 'alt', 'arrays'][(k // 2) % 3]
+            kinds = [kd for kd in R.KINDS if R.kind_ok(kd, shin, dtype)]
+            akind = kinds[(k + len(picks)) % len(kinds)]            # every kind of array-like input, rotating
             base = {'api': 'resize_array', 'variant': 'array', 'dom': shin, 'ran': shout, 'offs': offs, 'mode': mode,
-                    'dir': direction, 'c': cfg_c(cfg, w), 'dtype': dtype, 'out': out, 'order': order, 'D': 1, 'style': style}
+                    'dir': direction, 'c': cfg_c(cfg, w), 'dtype': dtype, 'out': out, 'order': order, 'D': 1, 'style': style,
+                    'kind': akind}
             res = probe(base, N, w, log)
-            rec('resize_array', 'array', dtype, {'dtype': dtype, 'out': out, 'order': order, 'kind': 'direct', 'style': style},
+            rec('resize_array', 'array', dtype, {'dtype': dtype, 'out': out, 'order': order, 'kind': 'direct', 'style': style,
+                                                 'arraylike': akind},
                 ['raised'] if res['err'] else compare(res, mat, aff), res)
         # B. embedded with an untouched extra axis
         dtype = DTYPES[(k + 3) % 6]
@@ -539,9 +559,113 @@ def driver_call(rnd, fam=None):
         if rnd.random() < 0.3:      # nodes on the boundary requested for domain / range (values are not affected)
             cd['dbdry'] = [[rnd.randint(0, 1), rnd.randint(0, 1)] if m >= 2 else [0, 0] for m in dom]
             cd['rbdry'] = [[rnd.randint(0, 1), rnd.randint(0, 1)] if n >= 2 else [0, 0] for n in ran]
-        if dtype == 'float64' and variant in ('call', 'derivative') and rnd.random() < 0.2:
-            cd['rdtype'] = 'float32'    # discr_kwargs={'dtype': ...}: range with another data type
+        if variant in ('call', 'derivative') and rnd.random() < 0.25:
+            # range with another data type (discr_kwargs={'dtype': ...} or an explicit range space)
+            cd['rdtype'] = rnd.choice({'float64': ['float32', 'complex128'], 'float32': ['float64', 'complex64'],
+                                       'complex128': ['complex64'], 'complex64': ['complex128']}[dtype])
+    else:
+        kinds = [kd for kd in R.KINDS if R.kind_ok(kd, dom, dtype)]
+        cd['kind'] = rnd.choice(kinds)
     return cd
+
+
+def arraylike_cases(quick):
+    """resize_array with every kind of array-like input (ODL elements, ndarray subclass views, np.matrix, memoryview,
+    objects exposing __array__ with the shared buffer, strided views, lists) x direction x pad mode x growing / shrinking
+    / mixed shapes, with and without out=.  The events carry the input contents AFTER the call."""
+    shapes = [([3], [5], [1]), ([5], [3], [1]), ([2, 3], [4, 2], [1, 1]), ([4, 2], [2, 3], [1, 1])]
+    if not quick:
+        shapes += [([4], [9], [3]), ([6], [2], [3]), ([3, 3], [5, 5], [1, 1]), ([5, 4], [3, 2], [1, 2]), ([2, 2, 3], [3, 2, 2], [1, 0, 1])]
+    out = []
+    k = 0
+    for kind in R.KINDS:
+        for dom, ran, offs in shapes:
+            if not R.kind_ok(kind, dom, 'float64'):
+                continue
+            for direction in ('forward', 'adjoint'):
+                for mode in MODES:
+                    k += 1
+                    dtype = ['float64', 'int64', 'complex128', 'float32'][k % 4]
+                    cplx = dtype.startswith('complex')
+                    x = [cj(((j * j + k) % 9) - 4, (j % 3) - 1 if cplx else 0) for j in range(1, size(dom) + 1)]
+                    c = cj(3 if (mode == 'constant' and direction == 'forward' and k % 2) else 0)
+                    out.append({'api': 'resize_array', 'variant': 'array', 'dom': dom, 'ran': ran, 'offs': offs, 'mode': mode,
+                                'dir': direction, 'c': c, 'x': x, 'dtype': dtype, 'out': ['none', 'given'][(k // 2) % 2],
+                                'order': 'C', 'D': 1, 'kind': kind, 'style': ['plain', 'alt', 'arrays'][k % 3]})
+    return out
+
+
+F32EDGE = Fraction(2 ** 24 + 1, 2 ** 24)       # 1 + 2^-24: a float64 that float32 rounds to 1
+
+
+def mixed_dtype_cases(quick):
+    """ResizingOperator whose range has another data type than its domain (explicit range or discr_kwargs dtype), with pad
+    constants that are NOT representable in the domain type.  Returns [(call descriptor | None, numpy.pad case | None)]."""
+    combos = [('int64', 'float64', Fraction(1, 2), 0), ('int32', 'float32', Fraction(1, 2), 0),
+              ('float32', 'float64', F32EDGE, 0), ('float64', 'complex128', Fraction(1), Fraction(2)),
+              ('float32', 'complex64', Fraction(1, 2), Fraction(1)), ('int64', 'complex128', Fraction(1, 2), Fraction(-1)),
+              ('int64', 'float64', Fraction(0), 0), ('float32', 'float64', Fraction(0), 0),
+              # narrower range (the constructor accepts it): representable and non-representable constants
+              ('float64', 'float32', Fraction(1, 2), 0), ('float64', 'float32', F32EDGE, 0), ('float64', 'int64', Fraction(2), 0)]
+    shapes = [([3], [5], [1]), ([2], [5], [2]), ([5], [3], [1]), ([2, 3], [4, 3], [1, 0]), ([2, 2], [3, 4], [1, 1])]
+    if quick:
+        shapes = shapes[:2] + shapes[3:4]
+    out = []
+    k = 0
+    for dtype, rdtype, cre, cim in combos:
+        for dom, ran, offs in shapes:
+            for construct in ('ran_shp', 'range'):
+                k += 1
+                c = cj(cre, cim)
+                D = max(2, cre.denominator)
+                base = {'api': 'operator', 'dom': dom, 'ran': ran, 'offs': offs, 'mode': 'constant', 'c': c, 'dtype': dtype,
+                        'rdtype': rdtype, 'out': ['none', 'given'][k % 2], 'D': D, 'lo': [qj(LOS[(k + a) % 4]) for a in range(len(dom))],
+                        'hs': [qj(HS[(k + a) % 4]) for a in range(len(dom))], 'construct': construct, 'style': 'plain'}
+                xd = generic(size(dom), k)
+                xr = generic(size(ran), k + 1)
+                out.append((dict(base, variant='call', x=xd), None))
+                out.append((dict(base, variant='derivative', x=xd), None))
+                if all(n >= m for m, n in zip(dom, ran)):
+                    out.append((dict(base, variant='inverse', x=xr), None))
+                    # cross-check with numpy.pad computed in the RANGE data type, also for constants off every lattice
+                    for cpy in ([complex(float(cre), float(cim)) if cim else float(cre)] +
+                                ([0.1] if np.dtype(rdtype).kind == 'f' and k % 2 else [])):
+                        out.append((None, dict(base, x=xd, cpy=[cpy.real, cpy.imag] if isinstance(cpy, complex) else cpy)))
+                if cre == 0 and cim == 0 and np.dtype(rdtype).kind != 'c':
+                    out.append((dict(base, variant='adjoint', x=xr), None))
+        # a non-constant mode between different data types
+        out.append(({'api': 'operator', 'variant': 'call', 'dom': [3], 'ran': [6], 'offs': [2], 'mode': 'order1', 'c': cj(0), 'dtype': dtype,
+                     'rdtype': rdtype, 'out': 'none', 'D': 2, 'lo': [qj(0)], 'hs': [qj(1)], 'construct': 'ran_shp', 'style': 'plain',
+                     'x': generic(3, k)}, None))
+    return out
+
+
+def numpy_pad_mixed(npc):
+    """op(x) of a mixed-dtype constant-padding operator against numpy.pad evaluated in the range data type.
+    Returns None or (clause, observation)."""
+    import odl
+    cpy = complex(*npc['cpy']) if isinstance(npc['cpy'], list) else npc['cpy']
+    cd = dict(npc, c=cj(0))
+    dom = R.make_domain(cd)
+    try:
+        if npc['construct'] == 'range':
+            tmp = R._make_operator(cd)          # only to obtain the matching range space
+            op = odl.ResizingOperator(dom, tmp.range, pad_mode='constant', pad_const=cpy)
+        else:
+            op = odl.ResizingOperator(dom, ran_shp=tuple(npc['ran']), offset=list(npc['offs']), pad_mode='constant', pad_const=cpy,
+                                      discr_kwargs={'dtype': npc['rdtype']})
+        x = R.to_array(npc['x'], tuple(npc['dom']), npc['dtype'])
+        y = op(dom.element(x)).asarray()
+    except Exception as e:
+        return ('raised', {'err': type(e).__name__ + ': ' + str(e)[:100]})
+    ref = np.pad(x.astype(npc['rdtype']), [(o, n - m - o) for m, n, o in zip(npc['dom'], npc['ran'], npc['offs'])],
+                 mode='constant', constant_values=np.array(cpy).astype(npc['rdtype']))
+    if y.dtype != ref.dtype or not np.array_equal(y, ref):
+        return ('numpy-pad', {'operator': y.tolist() if y.dtype.kind != 'c' else str(y.tolist()),
+                              'numpy_pad': ref.tolist() if ref.dtype.kind != 'c' else str(ref.tolist()), 'dtype': str(y.dtype)})
+    if bool(op.is_linear) != (cpy == 0):
+        return ('linear-flag', {'is_linear': bool(op.is_linear), 'pad_const': str(cpy)})
+    return None
 
 
 def beyond_bounds(quick):
@@ -589,6 +713,12 @@ def run(ctx):
         'of the domain are kept there; this is what makes the documented scalar spelling offset=k meaningful when only some axes change',
         'caller-owned ndarrays given as ran_shp / offset / pad_const are overwritten after the construction, results of earlier calls '
         'are overwritten, and geometry / values are observed again after other calls: all must stay as specified',
+        'resize_array is called with every kind of array-like (ndarray, list, ODL tensor / discretised elements, ndarray subclass '
+        'view, np.matrix, memoryview, __array__ objects returning the shared buffer, strided views): value = reference, the input '
+        'object is unchanged afterwards (clause input-modified), NaN / garbage pre-filled out= does not leak',
+        'mixed data types: the pad constant is a value of the data type of the RESULT (range); the reference decides the fill when '
+        'the constant is representable there (dyadic constants such as 1/2 for an int domain, 1 + 2^-24 for a float32 domain, 1+2i '
+        'for a real domain), numpy.pad in the range data type is the oracle for every constant; is_linear is judged on the constant',
         'option spellings exercised: nested-list input, list / tuple shapes, one int offset for all axes, upper-case mode / '
         'direction strings, 0-d array pad constants, ran_shp / explicit range / default offset, discr_kwargs dtype',
         'all data on integer / half-integer lattices; results are integer combinations of them, compared exactly']
@@ -632,6 +762,14 @@ def run(ctx):
             events.append(e)
             meta.append((api, variant, dtype, offset))
 
+    def run_calls(dcalls, nontrivial=None):
+        for cd in dcalls:
+            y, err, nt, info = R.execute(cd)
+            add_events([(cd, y, err, info.get('offs'))], 'resize_array' if cd['api'] == 'resize_array' else 'ResizingOperator',
+                       cd['variant'], cd['dtype'], 'from-range' if cd.get('construct') == 'range' else 'explicit')
+            ctx.count([cd['api'], cd['variant'], cd['dom'], cd['ran'], cd['offs'], cd['mode'], cd.get('dir'), dkind(cd['dtype']),
+                       cd.get('kind'), cd.get('rdtype'), cd['x']], cd['dom'] != cd['ran'])
+
     for ci, case in enumerate(cases):
         cfg, obs = case['cfg'], case['obs']
         fam = (cfg['mode'], cfg['dir'], obs['q'], len(cfg['shapeIn']))
@@ -643,8 +781,14 @@ def run(ctx):
         for r in recs:
             ctx.count([cfg, obs['q'], r['api'], r['variant'], dkind(r['dtype']), r['conc'].get('kind')], nontriv, n=r['calls'])
             add_events(r['events'], r['api'], r['variant'], r['dtype'], r['offset'])
+            rextra = {'arraylike': r['conc']['arraylike']} if 'arraylike' in r['conc'] else None
+            if 'input-modified' in r['notes']:
+                # the caller's input object (whatever kind of array-like it is) must hold what it held before
+                ctx.violation(signature(r['api'], r['variant'], cfg['mode'], cfg['dir'], cfg['shapeIn'], cfg['shapeOut'],
+                                        r['dtype'], r['offset'], 'input-modified', r.get('bdry', 'none'), rextra),
+                              {'stage': 'replay', 'case': case, 'k': k, 'api': r['api'], 'conc': r['conc'], 'observed': r['observed']})
             for nt in r['notes']:
-                if isinstance(nt, str) and nt.split(':')[0] in ('out-not-returned', 'input-modified', 'result-not-in-range',
+                if isinstance(nt, str) and nt.split(':')[0] in ('out-not-returned', 'result-not-in-range', 'argument-modified',
                                                                   'dtype-changed') and (r['api'], nt) not in drift_seen:
                     drift_seen.add((r['api'], nt))
                     ctx.drift_note('%s %s: %s (cfg %s)' % (r['api'], r['variant'], nt, dumps(cfg)))
@@ -655,7 +799,7 @@ def run(ctx):
                         ctx.drift_note('%s accepted a configuration outside the documented restrictions: %s' % (r['api'], dumps(cfg)))
                     continue
                 ctx.violation(signature(r['api'], r['variant'], cfg['mode'], cfg['dir'], cfg['shapeIn'], cfg['shapeOut'],
-                                        r['dtype'], r['offset'], clause, r.get('bdry', 'none')),
+                                        r['dtype'], r['offset'], clause, r.get('bdry', 'none'), rextra),
                               {'stage': 'replay', 'case': case, 'k': k, 'api': r['api'], 'conc': r['conc'], 'observed': r['observed']})
             if len(ctx.samples) < 3 and obs.get('adm') and r['api'] == 'ResizingOperator' and cfg['mode'] == 'order1' \
                     and len(cfg['shapeIn']) == 2 and ci % 11 == 0 and obs['q'] == 'call':
@@ -709,13 +853,23 @@ def run(ctx):
         ctx.count(['adjid', dom, ran, offs, mode, dtype], True)
         nadj += 1
     # 3c beyond the TLC constants + seeded random concretisations
-    dcalls = beyond_bounds(quick) + [driver_call(rnd) for _ in range(1200 if quick else 16000)]
-    for cd in dcalls:
-        y, err, nt, info = R.execute(cd)
-        add_events([(cd, y, err, info.get('offs'))], 'resize_array' if cd['api'] == 'resize_array' else 'ResizingOperator',
-                   cd['variant'], cd['dtype'], 'from-range' if cd.get('construct') == 'range' else 'explicit')
-        ctx.count([cd['api'], cd['variant'], cd['dom'], cd['ran'], cd['offs'], cd['mode'], cd.get('dir'), dkind(cd['dtype']), cd['x']],
-                  cd['dom'] != cd['ran'])
+    dcalls = beyond_bounds(quick) + [driver_call(rnd) for _ in range(1000 if quick else 16000)]
+    # 3d every kind of array-like input x direction x pad mode x growing / shrinking axes (deterministic)
+    dcalls += arraylike_cases(quick)
+    # 3e domain and range of different data types (fill in the RANGE data type, is_linear on the actual constant)
+    mixed = mixed_dtype_cases(quick)
+    dcalls += [cd for cd, _ in mixed if cd is not None]
+    run_calls(dcalls)
+    for cd, npc in mixed:
+        if npc is None:
+            continue
+        cl = numpy_pad_mixed(npc)
+        ctx.count(['numpy-pad-mixed', npc['dom'], npc['ran'], npc['dtype'], npc['rdtype'], npc['construct']], True)
+        if cl:
+            ctx.violation(signature('ResizingOperator', 'call', 'constant', 'forward', npc['dom'], npc['ran'], npc['dtype'],
+                                    'from-range' if npc['construct'] == 'range' else 'explicit', cl[0], 'none',
+                                    {'dtypes': dtypes_class(npc['dtype'], npc['rdtype'])}),
+                          {'stage': 'numpy-pad-mixed', 'case': npc, 'observed': cl[1]})
     ctx.traces += ngeo + nadj + len(dcalls)
     ctx.extra['operator_geometries_checked'] = ngeo
     ctx.extra['adjoint_identities_checked'] = nadj
@@ -729,7 +883,8 @@ def run(ctx):
                           'exported by TLC and replayed via ran_shp / default-offset / explicit-range construction',
         'drivers': 'operator geometry: all 1-d (m, n, offset|default) up to %d and %d 2-d mixtures (every second one with rotating boundary flags); adjoint identity on all admissible 1-d '
                    '(m, n, offset, mode) up to 5 and 2-d mixtures up to 3x3; 1-d sizes up to 12 with padding larger than the array; '
-                   '%d random calls in 1-3 d' % (5 if quick else 7, 100 if quick else 360, 1200 if quick else 16000)}
+                   '%d random calls in 1-3 d; every array-like input kind x direction x mode x 4+ shapes; mixed domain / range data types '
+                   '(11 type / constant combinations x shapes x construction routes)' % (5 if quick else 7, 100 if quick else 360, 1000 if quick else 16000)}
     ctx.extra['outside_the_statement'] = outside_statement_observations()
     ctx.exhaustive = True     # 1-d space n_in, n_out in 1..5 x offsets x modes x directions and the 2-d mixtures up to 3x3 are
     #                           enumerated completely by TLC; every exported case is replayed
@@ -798,7 +953,7 @@ def validate_events(ctx, events, meta, work, chunk=4000):
             e = events[eid]
             api, variant, dtype, offset = meta[eid]
             clauses = sorted(set(re.findall(r'<<\s*"([\w-]+)"', ctext)))
-            bd = 'none'
+            bd, xtra = 'none', None
             if isinstance(e, dict):
                 if e['kind'] == 'range':
                     mode, direction, dom, ran = 'any', 'forward', e['dom'], e['ran']
@@ -809,12 +964,13 @@ def validate_events(ctx, events, meta, work, chunk=4000):
             else:
                 cd = e[0]
                 mode, direction, dom, ran = cd['mode'], cd.get('dir', 'forward'), cd['dom'], cd['ran']
+                xtra = extra_of(cd)
                 detail = {'stage': 'trace', 'call': cd, 'observed': {'y': e[1], 'err': e[2], 'offs': e[3]}, 'tlc_clauses': ctext}
             for clause in clauses:
                 if clause in DRIFT_CLAUSES:
                     ctx.drift_note('%s %s: %s on %s' % (api, variant, clause, dumps([dom, ran, mode])))
                     continue
-                ctx.violation(signature(api, variant, mode, direction, dom, ran, dtype, offset, clause, bd), detail)
+                ctx.violation(signature(api, variant, mode, direction, dom, ran, dtype, offset, clause, bd, xtra), detail)
     ctx.extra['trace_events_validated_by_tlc'] = len(events)
     ctx.extra['trace_events_rejected_by_tlc'] = nfail
 
